@@ -135,7 +135,7 @@ SetFrame(I, J, p) ==
         /\ SetFrame(I[i].val.items, J[i].val.items, Drop(p, Len(I[i].ap)))
     ELSE
         /\ Len(J) = Len(I) + 1 /\ SubSeq(J, 1, Len(I)) = I
-        /\ IsBind(J[Len(J)]) /\ J[Len(J)].lead = <<>> /\ J[Len(J)].eol = ""
+        /\ IsBind(J[Len(J)]) /\ J[Len(J)].eol = ""      \* (a comment that dangled before the closing brace now precedes it)
 
 \* neighbours of a removed item may lose / gain only their `blank' flag
 SameButBlank(x, y) == [x EXCEPT !.blank = FALSE] = [y EXCEPT !.blank = FALSE]
@@ -144,7 +144,10 @@ RmFrame(I, J, p) ==
     IF I = J THEN TRUE
     ELSE IF Exact(I, p) # {} THEN
         /\ Len(J) = Len(I) - 1
-        /\ \E i \in Exact(I, p) : \A j \in 1..Len(J) : SameButBlank(J[j], IF j < i THEN I[j] ELSE I[j + 1])
+        \* (own-line comments between the removed item and its successor may go with it: whose they are is ambiguous)
+        /\ \E i \in Exact(I, p) : \A j \in 1..Len(J) :
+              IF j = i THEN SameButBlank([J[j] EXCEPT !.lead = <<>>], [I[j + 1] EXCEPT !.lead = <<>>])
+              ELSE SameButBlank(J[j], IF j < i THEN I[j] ELSE I[j + 1])
     ELSE IF Through(I, p) # {} THEN
         LET i == Via(I, p) IN
         /\ Len(J) = Len(I)
